@@ -199,11 +199,17 @@ pub fn strategy(exclude_zero_repeat: bool) -> BoxedStrategy<SpiCase> {
             let cap = buf as u32 / n as u32;
             let cmd = (any::<u8>(), proptest::collection::vec(any::<u8>(), 0..=20)).prop_map(|(cmd, args)| SpiOp::Cmd { cmd, args });
             let px = (count_strategy(cap), any::<u32>()).prop_map(|(count, seed)| SpiOp::Pixels { count, seed });
-            let rp = (count_strategy(cap), proptest::collection::vec(any::<u8>(), n as usize)).prop_map(move |(count, pixel)| SpiOp::Repeat {
+            // pixels from a tiny per-sequence palette: the same pattern is repeated by several ops
+            let pal = prop_oneof![
+                2 => proptest::collection::vec(any::<u8>(), n as usize),
+                3 => (0u8..3).prop_map(move |i| (0..n).map(|j| 0x21u8.wrapping_mul(i + 1).wrapping_add(j * 0x35)).collect::<Vec<u8>>()),
+                1 => (0u8..2).prop_map(move |i| vec![i * 0xff; n as usize]),
+            ];
+            let rp = (count_strategy(cap), pal).prop_map(move |(count, pixel)| SpiOp::Repeat {
                 pixel,
                 count: if exclude_zero_repeat && count == 0 { 1 } else { count },
             });
-            (Just(n), Just(buf), proptest::collection::vec(prop_oneof![2 => cmd, 3 => px, 3 => rp], 1..=6))
+            (Just(n), Just(buf), proptest::collection::vec(prop_oneof![2 => cmd, 3 => px, 3 => rp], 1..=8))
         })
         .prop_map(|(n, buf, ops)| SpiCase { n, buf, ops })
         .boxed()
